@@ -19,7 +19,7 @@ Require Import V.Model.Awaitify V.Model.AwaitifyCase.
 Local Open Scope nat_scope.
 """
 ITER_FLAVOURS = ["list", "getitem", "sync_iter", "async_gen", "async_class"]
-CALL_FLAVOURS = ["def", "async", "partial", "object", "awaitobj"]
+CALL_FLAVOURS = ["def", "async", "partial", "object", "awaitobj", "awaitclass"]
 
 
 class GetItemSeq:
@@ -330,6 +330,56 @@ def run(tier, seed):
                 rep.violation("neutrality:%s-numeric" % fname, {"data": repr(data), "why": "%s depends on the flavour of the iterable: %r" % (fname, vals)})
     # exit callbacks / pushed exits of an ExitStack in every callable flavour: same unwinding
     fails += exitstack_flavours(rep, rng, tier)
+    # cycle over every flavour of iterable, the input being modified after the first pass: what was seen is replayed
+    res = {}
+    for fl in ITER_FLAVOURS:
+        L = ["a", "b", "c"]
+        src = L if fl == "list" else flavoured_source(Ctx(None), 0, L, fl)
+
+        async def cyc(src=src, L=L):
+            c = _a2.cycle(src)
+            out = []
+            for i in range(9):
+                if i == 4:
+                    L[1] = "B"
+                    L.append("d")
+                out.append(await c.__anext__())
+            return out
+        import asyncstdlib as _a2
+        try:
+            res[fl] = repr(drive(cyc()))
+        except BaseException as e:  # noqa
+            res[fl] = "raised %r" % (e,)
+        rep.count(("cycle-flavour", fl), True)
+    if len(set(res.values())) != 1:
+        fails += 1
+        rep.violation("neutrality:cycle", {"why": "cycle (input modified after the first pass) depends on the flavour of the iterable: %r" % (res,)})
+    # sync(): a computation that fails with TypeError fails the same way whatever the flavour of the callable
+    res = {}
+
+    def _compute(x):
+        return 1 + x          # TypeError for a str
+
+    async def _acompute(x):
+        return 1 + x
+
+    class _CO:
+        def __call__(self, x):
+            return _acompute(x)
+    for fl, fn in (("def", _compute), ("async", _acompute), ("partial", functools.partial(_acompute)), ("object", _CO()), ("lambda->coroutine", lambda x: _acompute(x))):
+        outs = []
+        for arg in (2, "s"):
+            try:
+                outs.append(("ok", drive(_a2.sync(fn)(arg))))
+            except TypeError:
+                outs.append(("TypeError",))
+            except BaseException as e:  # noqa
+                outs.append(("other", repr(e)))
+        res[fl] = repr([o if o[0] != "ok" or isinstance(o[1], int) else ("ok", type(o[1]).__name__) for o in outs])
+        rep.count(("sync-flavour", fl), True)
+    if len(set(res.values())) != 1:
+        fails += 1
+        rep.violation("neutrality:sync", {"why": "sync(f)(x) depends on the flavour of f: %r" % (res,)})
     # scoped_iter / borrow over every flavour of iterable: two successive tools inside one block see consecutive parts
     import asyncstdlib as _a
 
